@@ -945,6 +945,9 @@ func recipeClasses(side string, r *Recipe, s int, pending uint64) []string {
 	if r.Conf.Unsafe {
 		cls = append(cls, "unsafe-batches")
 	}
+	if r.Settle {
+		cls = append(cls, "nrt:merger-given-time-to-settle")
+	}
 	if pending > 0 {
 		cls = append(cls, "layout:pending-deletions-observed")
 	}
